@@ -865,10 +865,10 @@ if __name__ == '__main__':
     from math import inf, nan
     import sys
     try:
-        r = scalar_float_roundtrip(2, float("inf"))
+        r = data_or_value_routing_roundtrip(True, True, 1, False, False)
     except BaseException as e:
         print('RAISED', repr(e)); r = False
-    print('condition scalar_float_roundtrip:', r)
+    print('condition data_or_value_routing_roundtrip:', r)
     if not r:
         print('VIOLATION property=C14 replay=' + __file__)
     sys.exit(0 if r else 1)
